@@ -1553,3 +1553,95 @@ Proof.
   - destruct (DFANIlablist _ _ _ _) as [l1 [[orefs labs]|]] eqn:E; destruct (DFANIlablist_frame _ _ _ _ _ _ E) as [F D];
     inversion H; subst; simpl; (split; [assumption|]; split; [reflexivity|]; split; [assumption|]; left; assumption).
 Qed.
+
+Definition ty_of (g : Z) : Z := match type_of_tag g with Some t => t | None => 0 end.
+Definition ann_of (d : dd) : ann :=
+  mkann (ty_of (d_tag d), d_ref d) (fst (target_of (ty_of (d_tag d)) d)) (snd (target_of (ty_of (d_tag d)) d))
+        (Some (payload_text (d_tag d) (d_data d))).
+Definition abs_closed (l : lstate) : state := mkstate (map ann_of (l_dds l)) [] false.
+
+Lemma ty_of_tag_of_type : forall ty, tyok ty -> ty_of (tag_of_type ty) = ty.
+Proof. intros ty H. unfold tyok in H. assert (ty = 0 \/ ty = 1 \/ ty = 2 \/ ty = 3) as [-> | [-> | [-> | ->]]] by lia; reflexivity. Qed.
+
+Lemma NoDup_map_inj : forall A B (f : A -> B) l x y, NoDup (map f l) -> In x l -> In y l -> f x = f y -> x = y.
+Proof.
+  induction l as [|a t IH]; simpl; intros x y ND Hx Hy E; [contradiction|]. inversion ND as [|? ? Hn ND']; subst.
+  destruct Hx as [->|Hx]; destruct Hy as [->|Hy]; auto.
+  - exfalso. apply Hn. rewrite E. apply in_map. assumption.
+  - exfalso. apply Hn. rewrite <- E. apply in_map. assumption.
+Qed.
+
+Lemma closed_sim : forall l hs, Good l -> (forall ty, l_tree l ty = None) -> l_atoms l = [] ->
+  (forall slot, sget hs slot = FAILV) -> Sim (mkh l hs false) (abs_closed l).
+Proof.
+  intros l hs [HI HT] Htr Hat Hs. constructor; simpl.
+  - split; assumption.
+  - unfold keys. rewrite map_map. apply NoDup_map_in.
+    + apply (NoDup_map_inv ddkey). apply (tf_nodup _ HT).
+    + intros x y Hx Hy E. simpl in E. inversion E as [[E1 E2]].
+      destruct (tf_tags _ HT x Hx) as [tx [Tx Gx]]. destruct (tf_tags _ HT y Hy) as [ty [Ty Gy]].
+      rewrite Gx, Gy, !ty_of_tag_of_type in E1 by assumption. subst ty.
+      apply (NoDup_map_inj _ _ ddkey (l_dds l)); [apply (tf_nodup _ HT) | assumption | assumption|]. unfold ddkey. congruence.
+  - intros [[xt xr] xg xf xtx]. rewrite in_map_iff. unfold Repr. cbn [a_key a_text a_ttag a_tref fst snd]. split.
+    + intros [d [E Hd]]. unfold ann_of in E. inversion E; subst xt xr xg xf xtx; clear E.
+      destruct (tf_tags _ HT d Hd) as [ty [Ty Gy]]. rewrite Gy, ty_of_tag_of_type by assumption.
+      split; [split; [assumption | apply (inv_refs _ HI d Hd)]|]. left. exists d. rewrite <- Gy.
+      repeat split; auto. destruct (target_of ty d); reflexivity.
+    + intros [[T R] [[d [D1 [D2 [D3 [D4 D5]]]]]|[_ [_ [t [e [C _]]]]]]]; [|rewrite Htr in C; discriminate].
+      exists d. split; [|assumption]. unfold ann_of. rewrite D2, ty_of_tag_of_type by assumption. rewrite <- D5. simpl. rewrite D3, D4, D2. reflexivity.
+  - reflexivity.
+  - intros _. split; assumption.
+  - intros slot. simpl. apply Hs.
+Qed.
+
+Lemma TF_hput_closed : forall l l' tag ref data, TF l -> (forall ty, l_tree l' ty = None) ->
+  l_dds l' = hput tag ref data (l_dds l) -> (exists ty, tyok ty /\ tag = tag_of_type ty) ->
+  (is_data_tag tag = true -> 4 <= zlen data) -> TF l'.
+Proof.
+  intros l l' tag ref data HT Htr Hd Htag Hlen. constructor; rewrite ?Hd; try (intros ty t; intros; rewrite Htr in *; discriminate).
+  - apply hput_keys_NoDup. apply (tf_nodup _ HT).
+  - intros d Hin Hdat. apply (hput_In _ _ _ _ _ (tf_nodup _ HT)) in Hin. destruct Hin as [->|[Hin _]]; [apply Hlen; assumption | apply (tf_len _ HT); assumption].
+  - intros d Hin. apply (hput_In _ _ _ _ _ (tf_nodup _ HT)) in Hin. destruct Hin as [->|[Hin _]]; [exact Htag | apply (tf_tags _ HT); assumption].
+Qed.
+
+Lemma closed_slots : forall h a, Sim h a -> h_sess h = false -> forall slot, sget (h_slots h) slot = FAILV.
+Proof.
+  intros h a HS Hc slot. destruct (sim_closed _ _ HS Hc) as [_ C2]. pose proof (sim_slots _ _ HS slot) as X.
+  destruct (slot_get slot (slots a)); [|assumption]. destruct X as [_ X]. unfold ANid2tagref in X. rewrite C2 in X. discriminate.
+Qed.
+
+(** any DFAN call leaves a state that some specification state represents (which annotation a DFAN call picks or
+    replaces is not decided here: that is the R-vs-S / R-vs-M correspondence) *)
+Lemma dfan_representable : forall h a o h' mr, Sim h a -> is_dfan o -> mstep h o = (h', mr) -> exists a', Sim h' a'.
+Proof.
+  intros h a o h' mr HS Hd HM. destruct (dfan_step_shape _ _ _ _ Hd HM) as [F [Hsl [Hse Hsh]]].
+  pose proof (sim_good _ _ HS) as [HI HT]. destruct F as [F1 [F2 [F3 F4]]].
+  destruct (h_sess h) eqn:Es.
+  - (* inside a session the harness does not issue the call *)
+    assert (h' = h).
+    { destruct o; simpl in Hd; try contradiction; unfold mstep in HM; cbv beta iota zeta in HM; rewrite Es in HM; inversion HM; reflexivity. }
+    subst h'. eauto.
+  - destruct (sim_closed _ _ HS Es) as [C1 C2].
+    assert (HI' : Inv (h_lib h')).
+    { destruct o; simpl in Hd; try contradiction; eapply mstep_Inv; try eassumption; exact I. }
+    assert (Htr' : forall ty, l_tree (h_lib h') ty = None) by (intros ty; rewrite F1; apply C1).
+    assert (HT' : TF (h_lib h')).
+    { destruct Hsh as [Hsame|[tag [ref [data [Hd' [Htag Hlen]]]]]].
+      - apply (TF_ext (h_lib h)); assumption.
+      - apply (TF_hput_closed (h_lib h) (h_lib h') tag ref data); assumption. }
+    exists (abs_closed (h_lib h')). destruct h' as [l' hs' se']. simpl in *. subst se' hs'.
+    apply closed_sim; [split; assumption | assumption | rewrite F3; assumption | apply (closed_slots _ _ HS Es)].
+Qed.
+
+(** states reachable by AN and DFAN calls within the property's domain, each with a specification state representing it *)
+Inductive reach : hstate -> state -> Prop :=
+| reach_init : reach hinit init
+| reach_an : forall h a o h' mr a' sr, reach h a -> an_op o -> mstep h o = (h', mr) -> step a (fill o mr) = (a', sr) ->
+             sr <> RUnspec -> ~ exhausted sr mr -> reach h' a'
+| reach_df : forall h a o h' mr a', reach h a -> is_dfan o -> mstep h o = (h', mr) -> Sim h' a' -> reach h' a'.
+
+Lemma reach_Sim : forall h a, reach h a -> Sim h a.
+Proof.
+  induction 1; [exact Sim_init | | assumption].
+  destruct (an_step_sim _ _ _ _ _ _ _ IHreach H0 H1 H2) as [X|[X|[X _]]]; [contradiction | contradiction | assumption].
+Qed.
